@@ -6,10 +6,13 @@ exception Bad of string
 
 let parse_req (t : string) : req =
   if String.length t <> 5 then raise (Bad t);
+  let has set c = String.contains set c in
+  let q = t.[1] and s = t.[3] in
+  if not (has "PESHABCD" q) || not (has "PEHA" s) then raise (Bad t);
   { r_mode = (match t.[0] with 'g' -> Plain | 'b' -> ConnectBlind | 'm' -> ConnectMitm | _ -> raise (Bad t));
-    r_q = (match t.[1] with 'P' -> QPass | 'E' -> QErr | 'S' -> QSkip | 'H' -> QHijack | _ -> raise (Bad t));
-    r_rt = (match t.[2] with 'O' -> RtOk | 'F' -> RtFail | _ -> raise (Bad t));
-    r_s = (match t.[3] with 'P' -> SPass | 'E' -> SErr | 'H' -> SHijack | _ -> raise (Bad t));
+    q_hij = has "HACD" q; q_err = has "EABD" q; q_skip = has "SBCD" q;
+    r_rt = (match t.[2] with 'O' -> RtOk | 'C' -> RtClone | 'N' -> RtNil | 'F' -> RtFail | _ -> raise (Bad t));
+    s_hij = has "HA" s; s_err = has "EA" s;
     r_close = (match t.[4] with 'k' -> false | 'c' -> true | _ -> raise (Bad t)) }
 
 (* K a b K c -> [[a;b];[c]] *)
